@@ -89,7 +89,20 @@ func runListX(dir, focus string, env *execEnv, caseStr string) (*Sx, []Violation
 	if err != nil {
 		env.count("xerr:" + classifyErr(err))
 		var v []Violation
-		if base, _ := runListRel(dir, focus, env, caseStr); base.ok {
+		// the one documented refusal: admin policies in the input (the analysis is disabled, nothing is reported)
+		refusal := false
+		if classifyErr(err) == "exposureWithANP" {
+			if wd, perr := ParseWorldOfCase(caseStr); perr == nil {
+				for _, o := range wd.Objs {
+					if o.Kind == "anp" || o.Kind == "banp" {
+						refusal = true
+					}
+				}
+			}
+		}
+		if refusal {
+			env.count("refused-with-admin-policies")
+		} else if base, _ := runListRel(dir, focus, env, caseStr); base.ok {
 			v = append(v, Violation{Prop: "C06", Kind: "exposure-fails-where-list-succeeds", Detail: "with the flag the analysis fails with " + err.Error() + " ; without it a report is produced", Case: caseStr})
 		}
 		return errSx(err), v
@@ -98,6 +111,7 @@ func runListX(dir, focus string, env *execEnv, caseStr string) (*Sx, []Violation
 		return Ls(At("ok"), At("nofocus")), nil
 	}
 	r := listResultSx(conns, peers)
+	var viols []Violation
 	var xs []*Sx
 	for _, ep := range ca.ExposedPeers() {
 		ing := Ls(At("ing"), At(b01(ep.IsProtectedByIngressNetpols())))
@@ -116,7 +130,6 @@ func runListX(dir, focus string, env *execEnv, caseStr string) (*Sx, []Violation
 		env.count("exposed-peers")
 	}
 	r.Add(sortedSx(xs)...)
-	var viols []Violation
 	// C11 at the output level: an entry whose structured form is the three full port ranges (and nothing by name)
 	// is the full set and is written `All Connections`
 	for _, ep := range ca.ExposedPeers() {
@@ -170,7 +183,10 @@ func runListX(dir, focus string, env *execEnv, caseStr string) (*Sx, []Violation
 func init() {
 	families["exposure"] = family{
 		gen: func(r *Rng, id int, tier string) *Sx {
-			cfg := &genCfg{anp: false, banp: false, pods: true, twinPct: 20, collidePct: 30, complementPct: 10, repName: true, namedOnIPPct: 6, maxNP: 4, maxWl: 4}
+			// admin policies in one input out of eight: the tool refuses the exposure analysis then (an error, never a report
+			// that leaves them out)
+			adm := r.P(12)
+			cfg := &genCfg{anp: adm, banp: adm, pods: true, twinPct: 20, collidePct: 30, complementPct: 10, repName: true, namedOnIPPct: 6, maxNP: 4, maxWl: 4}
 			w := genWorld(r, cfg)
 			c := Ls(At("wcase"), Ai(int64(id)), w.Sx(), Ls(At("listx"), At("-")))
 			if r.P(15) {
